@@ -100,6 +100,10 @@ class Prop(PropBase):
                     while off < len(dg):
                         f = udp_frame(b'', port_of(k), ip_id=(1000 + gi), frag_off=off, more=(off + 1480 < len(dg)), raw_ip_payload=dg[off:off + 1480], vlan=bool(vlan))
                         s.lines.append(f'F 0 {len(f)} {f.hex()}'); off += 1480
+                        if off < len(dg) and rng.random() < 0.15:
+                            # foreign traffic recorded between the fragments of the train: an unfragmented datagram to another port
+                            j = udp_frame(w[:rng.choice([40, 200])], base + 999, vlan=bool(vlan), ip_id=rng.choice([0, 1000 + gi, 77]))
+                            s.lines.append(f'F 0 {len(j)} {j.hex()}')
                 else:
                     f = udp_frame(w, port_of(k), vlan=bool(vlan))
                     s.lines.append(f'F 0 {len(f)} {f.hex()}')
